@@ -294,7 +294,7 @@ PROPS = {
     },
 }
 
-for _pid in ("C06", "C10", "C11", "C12", "C13", "C14", "C15", "C16", "C17", "C18"):
+for _pid in ("C06", "C11", "C12", "C13", "C14", "C15", "C16", "C17"):
     PROPS[_pid] = {"steps": [run_kani_property], "level": "model_checking", "kani": KANI[_pid], "explanation": KANI_EXPL, "assumptions": KANI_ASSUME}
 
 PROPS["C19"] = {"templates": PRELUDE + STD + STACK + ["20_plumbing.vrs", "30_state.vrs", "88_builder.vrs"] + MAIN, "expand": True, "extern": True,
@@ -348,6 +348,16 @@ PROPS["C07"] = {"templates": PRELUDE + ["87_ec_selectors.vrs"] + MAIN, "extern":
                                               "(VxSlice / vx_choose stand-ins whose bodies are those calls); that every k-subset / position is equally likely is rand's contract, assumed",
                                               "the individuals' order is a lawful total order (precondition `lawful::<I>()`; proved for EcIndividual / TestResults / Score / Error from their payload under C15)"]}
 
+# C18: Verus for the uniform member choices (representation invariant of OneOfCloning, ChooseCloning) + the Kani harnesses (collection generators, conversions, the real rand samplers)
+PROPS["C18"] = {"templates": PRELUDE + ["89_ec_choices.vrs"] + MAIN, "extern": True, "steps": [run_verus_property, run_kani_property], "level": "model_checking",
+                "kani": KANI["C18"],
+                "explanation": KANI_EXPL + " Verus (unbounded, any member type, any collection length): OneOfCloning::new rejects exactly the empty collection and otherwise establishes the representation "
+                               "invariant (Uniform range = 0..len, count = len); from that invariant sample returns a clone of the member at the drawn in-range position (its unwrap() cannot fail) and "
+                               "num_choices reports the number of members; the same for the borrowing ChooseCloning over rand's Choose.",
+                "assumptions": KANI_ASSUME + ["rand's Uniform::new(lo, hi) exists exactly for lo < hi and samples lo <= x < hi; slice::Choose::new exists exactly for a non-empty slice, reports its length and samples a member "
+                                              "(stand-ins whose bodies are those calls); that every position is equally likely is rand's contract, assumed",
+                                              "Clone::clone is specified by vstd's `cloned` relation"]}
+
 # C06: Verus for the combination selectors (Weighted, WeightedPair) and Lexicase; Kani for membership-by-address, the remaining selectors and the no-panic clause
 PROPS["C06"] = {"template_sets": [PRELUDE + ["82_ec_weighted.vrs"] + MAIN, PRELUDE + ["86_ec_lexicase.vrs"] + MAIN, PRELUDE + ["87_ec_selectors.vrs"] + MAIN], "expand": ["ec-core"], "extern": True,
                 "steps": [run_verus_multi, run_kani_property], "level": "model_checking", "kani": KANI["C06"],
@@ -358,17 +368,29 @@ PROPS["C06"] = {"template_sets": [PRELUDE + ["82_ec_weighted.vrs"] + MAIN, PRELU
 
 # C16: self-composition harnesses (Kani) + the functional contracts proved elsewhere (Verus): a function whose result and
 # final stream state are proved EQUAL TO A SPEC FUNCTION of (arguments, stream state) cannot depend on anything else
-PROPS["C16"] = {"template_sets": [PRELUDE + ["82_ec_weighted.vrs"] + MAIN, PRELUDE + ["84_ec_operators.vrs"] + MAIN, PRELUDE + ["86_ec_lexicase.vrs"] + MAIN, PRELUDE + ["87_ec_selectors.vrs"] + MAIN, PUSH],
+PROPS["C16"] = {"template_sets": [PRELUDE + ["82_ec_weighted.vrs"] + MAIN, PRELUDE + ["84_ec_operators.vrs"] + MAIN, PRELUDE + ["86_ec_lexicase.vrs"] + MAIN, PRELUDE + ["87_ec_selectors.vrs"] + MAIN, PRELUDE + ["89_ec_choices.vrs"] + MAIN, PRELUDE + ["90_ec_linear.vrs"] + MAIN, PUSH],
                 "expand": ["ec-core", "push"], "extern": True,
                 "steps": [run_verus_multi, run_kani_property], "level": "model_checking", "kani": KANI["C16"],
-                "explanation": KANI_EXPL + " Verus (unbounded): Weighted / WeightedPair::select, the operator combinators, Lexicase / Best / Worst / Random / Tournament::select and PushState::run_to_completion are each proved "
+                "explanation": KANI_EXPL + " Verus (unbounded): Weighted / WeightedPair::select, the operator combinators, Lexicase / Best / Worst / Random / Tournament::select, OneOfCloning / ChooseCloning::sample, TwoPointXo / UniformXo::recombine and PushState::run_to_completion are each proved "
                                "equal to a spec function of their arguments and the stream state (resp. of the abstract machine state), hence deterministic; a failure of one of those "
                                "contracts is reported under its own property and leaves C16 undecided.",
                 "assumptions": KANI_ASSUME + ["the Verus contracts model a generator by its abstract state rng_state(rng) and rand's shuffle / Bernoulli sampling as functions of that state"]}
 
-# C10: Verus for the Bitstring exchange primitives + the Kani harnesses for the recombinators
-PROPS["C10"] = {"templates": PRELUDE + ["90_ec_linear.vrs"] + MAIN, "extern": True, "steps": [run_verus_property, run_kani_property], "level": "model_checking",
+# C10: Verus for the exchange primitives, the Crossover contract and the recombinators built on it + the Kani harnesses on the compiled code
+PROPS["C10"] = {"templates": PRELUDE + ["90_ec_linear.vrs"] + MAIN, "extern": True, "steps": [run_verus_property, run_kani_property], "level": "proof",
                 "kani": KANI["C10"],
-                "explanation": KANI_EXPL + " Verus (unbounded, all lengths / indices / ranges): Bitstring::crossover_gene and crossover_segment return Err and change nothing exactly when "
-                               "the index / range leaves either genome, and otherwise swap exactly the addressed genes.",
-                "assumptions": KANI_ASSUME + ["<[T]>::swap_with_slice, Range::clone and Vec::get_mut(range) contracts (assumed std behaviour)"]}
+                "explanation": "Verus (all lengths / indices / ranges / stream states): Bitstring::crossover_gene and crossover_segment are proved against the Crossover contract (Err and nothing changed exactly when the "
+                               "index / range leaves either genome, otherwise exactly the addressed genes swapped); from that contract alone TwoPointXo over any Crossover genome returns the first parent with ONE "
+                               "contiguous segment [min, max) of two draws from 0..=len taken from the second parent, and UniformXo (loop invariant) takes position i from the second parent exactly when the i-th coin "
+                               "shows heads; TwoPointXo over Vec<T> is proved directly; different lengths give DifferentGenomeLength(a, b) with the stream untouched; random_range's non-empty-range "
+                               "precondition and the slice bounds are proved, so no panic is reachable in these bodies. Kani: UniformXo over Vec<T> (iterator closure), the tuple forms, and the same facts on "
+                               "compiled code with the real rand, see `bounded`.",
+                "assumptions": KANI_ASSUME + ["<[T]>::swap_with_slice, Range::clone, Vec::get_mut(range) and `a[i..j].swap_with_slice(&mut b[i..j])` contracts (stand-ins whose bodies are those calls)",
+                                              "Rng::random_range(range) returns a position inside a non-empty range, Rng::random::<bool>() a coin, both determined by the stream state (stand-ins); uniformity / fairness is rand's contract",
+                                              "an arbitrary Crossover genome satisfies the Crossover contract (proved for Bitstring)"]}
+
+# C12: the uniform-crossover clause also has a Verus part (one coin per position, each from its own draw; fairness of the coin is rand's contract)
+PROPS["C12"].update({"templates": PRELUDE + ["90_ec_linear.vrs"] + MAIN, "extern": True, "steps": [run_verus_property, run_kani_property],
+                     "explanation": KANI_EXPL + " Verus (unbounded): UniformXo over any Crossover genome takes position i from the second parent exactly when the i-th coin — Rng::random::<bool>(), one draw "
+                                    "per position — shows heads (loop invariant over the real body).",
+                     "assumptions": KANI_ASSUME + ["Rng::random::<bool>() is a fair coin determined by the stream state (stand-in whose body is that call; fairness is rand's contract)"]})
